@@ -1520,8 +1520,8 @@ class DataboxWorld(World):
         self._expect_box("slate", pred, r, want, what="round-tripped")
         ds = holder["ds"]
         for nm in r.keys():
-            for v in ds._variants:
-                if np.shares_memory(v.data, r[nm].data):
+            for k in range(ds.num_variants):
+                if np.shares_memory(ds.get_data_variant(k), r[nm].data):
                     self.probes["slate_result_views_slate"] += 1
         self._check_heap("slate", pred)
         self._check_bindings_unchanged("slate", pred)
@@ -1570,7 +1570,7 @@ class DataboxWorld(World):
                     col[:] = pick(ow, k)
                 cols.append(col)
             arr = np.column_stack(cols)
-            want[nm] = ("s", Exp(f, nv, {lo + i: arr[i] for i in range(n)}), "fresh")
+            want[nm] = ("s", Exp(f, nv, {lo + i: arr[i] for i in range(n)}), "any")
         kw = {"num_variants": nv}
         if a["fallbacks"]:
             kw["fallbacks"] = {k: (list(v) if isinstance(v, list) else v) for k, v in a["fallbacks"].items()}
@@ -1588,9 +1588,9 @@ class DataboxWorld(World):
         self._crash_guard("slate_new", "", status, r)
         self._check_heap("slate_new", "")
         self._check_bindings_unchanged("slate_new", "")
-        for v in r._variants:
+        for k in range(r.num_variants):
             for i, (real, _) in self.heap.items():
-                if np.shares_memory(v.data, real.data):
+                if np.shares_memory(r.get_data_variant(k), real.data):
                     raise Violation("alias", "slate_new", "", "", "the dataslate shares a buffer with a series of the source databox")
         # remember plain arrays: name -> (freq, nv, lo, n x nv array)
         exp = {}
@@ -1606,9 +1606,11 @@ class DataboxWorld(World):
         return "ok"
 
     def _slate_want(self, exp):
+        # sharing a buffer with the slate (or with a databox taken from it earlier) is not what the property forbids;
+        # interference is, and the isolation monitors of heap and slates watch for it
         want = {}
         for nm, (f, nv, lo, arr) in exp.items():
-            want[nm] = ("s", Exp(f, nv, {lo + i: arr[i] for i in range(arr.shape[0])}), "fresh")
+            want[nm] = ("s", Exp(f, nv, {lo + i: arr[i] for i in range(arr.shape[0])}), "any")
         return want
 
     def _check_slates(self, opname):
@@ -1617,7 +1619,7 @@ class DataboxWorld(World):
             names = list(real.names)
             for nm, (f, nv, lo, arr) in exp.items():
                 row = names.index(nm)
-                got = np.column_stack([v.data[row, :] for v in real._variants])
+                got = np.column_stack([real.get_data_variant(k)[row, :] for k in range(real.num_variants)])
                 if got.shape != arr.shape or not np.array_equal(got, arr, equal_nan=True):
                     raise Violation("isolation", opname, "", "", f"the values held by live dataslate {d} for {nm!r} changed although the operation was not applied to it")
 
@@ -1676,9 +1678,9 @@ class DataboxWorld(World):
         how = a["how"]
         status, r, _ = self._run("slate_" + how, "", lambda: getattr(real, how)())
         self._crash_guard("slate_" + how, "", status, r)
-        for v in r._variants:
-            for w in real._variants:
-                if np.shares_memory(v.data, w.data):
+        for k in range(r.num_variants):
+            for j in range(real.num_variants):
+                if np.shares_memory(r.get_data_variant(k), real.get_data_variant(j)):
                     raise Violation("alias", "slate_" + how, "", "", f"Dataslate.{how}() shares a data buffer with the original")
         new_exp = {}
         for nm, (f, nv, lo, arr) in exp.items():
